@@ -21,11 +21,17 @@ func (ex *Exec) call(fr *Frame, st *State, ci *ssa.Call) *Val {
 	}
 	rt := ci.Type()
 	pos := posOf(fr.fn, ci.Pos())
-	if fr.isRoot && fr.contract != nil && len(fr.contract.CallCounts) > 0 {
+	// the function under verification; fr itself, or the frame fr is (transitively) inlined into: helpers without
+	// a contract are part of the function's body as far as its call anchors and call counts are concerned
+	rf := fr
+	for rf.parent != nil {
+		rf = rf.parent
+	}
+	if rf.isRoot && rf.contract != nil && len(rf.contract.CallCounts) > 0 {
 		// call-count ghosts: a trace of the calls this function makes itself (the count is raised before the
 		// call; a callee can only change it by naming the ghost in its modifies clause)
 		nm := calleeName(ci)
-		for _, cc := range fr.contract.CallCounts {
+		for _, cc := range rf.contract.CallCounts {
 			if cc.Callee != nm {
 				continue
 			}
@@ -39,9 +45,9 @@ func (ex *Exec) call(fr *Frame, st *State, ci *ssa.Call) *Val {
 			ex.storeT(st, loc, &Val{K: KScalar, Typ: gt, T: Add(cur.T, BVConst(1, cur.T.Sort.W))}, gt)
 		}
 	}
-	if fr.isRoot && ex.quiet == 0 && fr.contract != nil && len(fr.contract.Asserts) > 0 {
-		name, k := callOrdinal(fr.fn, ci)
-		for _, a := range fr.contract.Asserts {
+	if rf.isRoot && ex.quiet == 0 && rf.contract != nil && len(rf.contract.Asserts) > 0 {
+		name, k := ex.flatOrdinal(rf, fr, ci)
+		for _, a := range rf.contract.Asserts {
 			if a.Callee == name && (a.K == k || a.K == -1) {
 				// arg0, arg1, ... name the actual arguments of the anchored call (arg0 is the receiver of a
 				// statically dispatched method call)
@@ -49,14 +55,14 @@ func (ex *Exec) call(fr *Frame, st *State, ci *ssa.Call) *Val {
 				for i, av := range args {
 					aenv[fmt.Sprintf("arg%d", i)] = av
 				}
-				cj := ex.goalCtx(fr, st, ex.oldState, aenv).conjuncts(a.Clause.Expr)
+				cj := ex.goalCtx(rf, st, ex.oldState, aenv).conjuncts(a.Clause.Expr)
 				for j, x := range cj {
 					nm := fmt.Sprintf("assert[%s]@call[%s:%d]", clauseLabel(a.Clause, 0), name, k)
 					if len(cj) > 1 {
 						nm = fmt.Sprintf("assert[%s.%d]@call[%s:%d]", clauseLabel(a.Clause, 0), j+1, name, k)
 					}
 					if a.Split != nil {
-						sc := ex.evalBool(fr, a.Split, st, ex.oldState, aenv)
+						sc := ex.evalBool(rf, a.Split, st, ex.oldState, aenv)
 						ex.oblige(st, "assert", nm+"/case1", Implies(sc, x.T), a.Clause.Tags, pos, "assert (case "+a.Split.String()+") "+x.Text)
 						ex.oblige(st, "assert", nm+"/case2", Implies(Not(sc), x.T), a.Clause.Tags, pos, "assert (case !("+a.Split.String()+")) "+x.Text)
 						continue
@@ -353,7 +359,7 @@ func (ex *Exec) callFunc(fr *Frame, st *State, ci *ssa.Call, fn *ssa.Function, a
 		return ex.byContract(fr, st, ci, ct, key, sigNames(fn.Signature, fn, ct), args, fn.Signature, rt, pos)
 	}
 	if len(fn.Blocks) > 0 && inModule && ex.depth < maxInlineDepth && !ex.onStack(key) {
-		return ex.inline(fr, st, fn, args, bind, rt)
+		return ex.inline(fr, st, ci, fn, args, bind, rt)
 	}
 	if len(fn.Blocks) > 0 && inModule {
 		ex.note("call of %s neither under contract nor inlinable (depth/recursion) in %s", key, fr.key)
@@ -372,8 +378,9 @@ func (ex *Exec) onStack(key string) bool {
 	return false
 }
 
-func (ex *Exec) inline(fr *Frame, st *State, fn *ssa.Function, args []*Val, bind []*Val, rt types.Type) *Val {
+func (ex *Exec) inline(fr *Frame, st *State, ci *ssa.Call, fn *ssa.Function, args []*Val, bind []*Val, rt types.Type) *Val {
 	nf := ex.newFrame(fn, args, fr.depth+1)
+	nf.parent, nf.via = fr, ci
 	nf.bindings = bind
 	ex.depth++
 	ex.stack = append(ex.stack, nf.key)
@@ -905,6 +912,98 @@ func callOrdinal(fn *ssa.Function, ci *ssa.Call) (string, int) {
 		}
 	}
 	return name, 0
+}
+
+// flatOrdinal numbers the calls of one callee name over the body of the function under verification with its
+// contract-less helpers expanded in place (exactly the calls the executor inlines): source order within each
+// function, a helper's calls at the position of the call that inlines it. Moving the statements around an anchored
+// call - or the call itself - into an unexported helper therefore keeps "call NAME K" pointing at the same call.
+func (ex *Exec) flatOrdinal(rf, fr *Frame, ci *ssa.Call) (string, int) {
+	name := calleeName(ci)
+	var path []*ssa.Call
+	for f := fr; f != nil && f.parent != nil; f = f.parent {
+		path = append([]*ssa.Call{f.via}, path...)
+	}
+	path = append(path, ci)
+	ck := rf.key + "|" + name
+	if ex.flatCache == nil {
+		ex.flatCache = map[string][][]*ssa.Call{}
+	}
+	list, ok := ex.flatCache[ck]
+	if !ok {
+		ex.flatRec(rf.fn, name, nil, []string{rf.key}, &list)
+		ex.flatCache[ck] = list
+	}
+	for k, p := range list {
+		if len(p) != len(path) {
+			continue
+		}
+		same := true
+		for i := range p {
+			if p[i] != path[i] {
+				same = false
+				break
+			}
+		}
+		if same {
+			return name, k + 1
+		}
+	}
+	return name, 0
+}
+
+func (ex *Exec) flatRec(fn *ssa.Function, name string, path []*ssa.Call, stack []string, out *[][]*ssa.Call) {
+	type ent struct {
+		c   *ssa.Call
+		seq int
+	}
+	var all []ent
+	for _, b := range fn.Blocks {
+		for _, in := range b.Instrs {
+			if c, ok := in.(*ssa.Call); ok {
+				all = append(all, ent{c, len(all)})
+			}
+		}
+	}
+	sort.SliceStable(all, func(i, j int) bool {
+		pi, pj := all[i].c.Pos(), all[j].c.Pos()
+		if pi.IsValid() != pj.IsValid() {
+			return pi.IsValid()
+		}
+		if pi != pj {
+			return pi < pj
+		}
+		return all[i].seq < all[j].seq
+	})
+	for _, e := range all {
+		c := e.c
+		if calleeName(c) == name {
+			*out = append(*out, append(append([]*ssa.Call{}, path...), c))
+		}
+		var callee *ssa.Function
+		switch v := c.Common().Value.(type) {
+		case *ssa.Function:
+			callee = v
+		case *ssa.MakeClosure:
+			callee, _ = v.Fn.(*ssa.Function)
+		}
+		if callee == nil || c.Common().IsInvoke() || len(callee.Blocks) == 0 {
+			continue
+		}
+		key := FuncKey(callee)
+		if ct := ex.p.contractFor(key); ct != nil && !ct.Inline {
+			continue
+		}
+		inModule := callee.Pkg != nil && strings.HasPrefix(callee.Pkg.Pkg.Path(), ex.p.modulePath)
+		onStack := false
+		for _, k := range stack {
+			onStack = onStack || k == key
+		}
+		if !inModule || len(path) >= maxInlineDepth || onStack {
+			continue
+		}
+		ex.flatRec(callee, name, append(append([]*ssa.Call{}, path...), c), append(append([]string{}, stack...), key), out)
+	}
 }
 
 func hasTag(tags []string, t string) bool {
